@@ -698,4 +698,7 @@ def run(ck: Check, repo: Repo) -> None:
     from . import c03
     r7 = ck.rule("R7", "REUSE.toml discovery receives the project's coverage options unchanged")
     c03.discovery_forwarding(r7, repo)
+    # 'the file provides a licence' is the truthiness of its expression set: a None stored for an empty tag makes it true (shared with C07-R12)
+    from . import c07
+    c07.rule_parse_none(ck, repo, "R9")
     ck.exhaustive = True
